@@ -198,3 +198,13 @@ Theorem C01_regenerated_fit_reachable : forall k ops, history_ok k ops = true ->
   forall t, xroot (fst (xalone k xinit ops)) = Some t -> xfit t /\ xfit32 t /\ short_leaves (tabs t).
 Proof. exact fit_reachable. Qed.
 Print Assumptions C01_regenerated_fit_reachable.
+
+(* ... over ALL twelve operations of the public interface (Proofs/TranslateRunAllFacts.v): the nine queries are the
+   regenerated thin methods of Gen/ApiGen.v run on the tree the heap holds, with budgets computed from that tree *)
+From GoArt Require Import Proofs.TranslateRunAllFacts.
+Theorem C01_regenerated_run_refines_all : forall evs,
+  Forall alpha_op_all (map fst evs) -> history_ok KAlpha (map fst evs) = true -> short_keys KAlpha (map fst evs) ->
+  g_alpha_run_all evs g_init = snd (Api.run KAlpha Api.init (map fst evs)) /\
+  g_alpha_run_all evs g_init = snd (ideal_run KAlpha [] (map fst evs)).
+Proof. exact gen_alpha_run_refines_all. Qed.
+Print Assumptions C01_regenerated_run_refines_all.
